@@ -145,5 +145,21 @@ def cmp_none(prop, case, model, mat, F, variant, final):
     return False
 
 
-COMPARATORS = {"blinded_check": cmp_bool_check, "key_proof_check": cmp_bool_check, "sig_check": cmp_sig_check,
+def cmp_ctx(prop, case, model, mat, F, variant, final):
+    """credential context m2: the hook's value against the model's documented hash, item by item"""
+    if not final:
+        return True
+    report(prop, case, F, variant)
+    if bad_model(model, case, F, variant, final):
+        return False
+    bad = [(it, a, b) for it, a, b in zip(case["in"]["items"], case["impl"]["m2"], model.get("m2", [])) if a != b]
+    if len(model.get("m2", [])) != len(case["impl"]["m2"]):
+        F.mismatch("ctx", "%s: model returned %d values for %d items" % (case["id"], len(model.get("m2", [])), len(case["impl"]["m2"])), case, variant)
+    for it, a, b in bad[:3]:
+        F.oracle_failure("m2_context", "%s: credential context for prover id %r, revocation index %r is %s..., the documented hash H(enc(LE(sha(id))) || enc(LE(sha(idx)))) is %s... (%d of %d items differ)" %
+                         (case["id"], it["prover_id"], it["rev_idx"], a[:24], b[:24], len(bad), len(case["impl"]["m2"])), case, variant)
+    return True
+
+
+COMPARATORS = {"ctx": cmp_ctx, "blinded_check": cmp_bool_check, "key_proof_check": cmp_bool_check, "sig_check": cmp_sig_check,
                "sign": cmp_sign, "blind_prove": cmp_blind_prove, "key_check": cmp_key_check, "issue_failed": cmp_none}
